@@ -7,6 +7,7 @@ Space: string pools built from
   * strings of every length 0..300 of a 1-byte, a 2-byte and a 3-byte unit (crosses the 128-byte read chunk of the
     string reader at every phase), each also mixed with a leading unit of another width,
   * one special unit behind an ASCII prefix of every length around the 128-byte chunk boundaries (120..131, 250..259, 378..387),
+  * long strings of 4095..4097 and 8191..8193 MUTF-8 bytes holding at most one special unit (start / middle / end),
   * each pool written both with the string data in the normal place and as the LAST bytes of the file.
 Every string is used as a field name, a method name, a class-name part and a const-string / const-string/jumbo operand.
 Oracle: ref (this file): the pool the independent writer was given; everything compared as UTF-16 code-unit sequences.
@@ -65,6 +66,16 @@ def pools(ctx):
             for n in range(lo, min(lo + 10, 301)):
                 ss.append(mk(([lead] if lead is not None else []) + [unit] * n))
             out.append(("%s:%d" % (name, lo), ss))
+    # LONG strings (size-gated fast paths): 4095/4096/4097 and 8191/8192/8193 MUTF-8 bytes with exactly one special unit
+    # (or none) at the start, in the middle and at the end
+    for total in (4095, 4096, 4097, 8191, 8192, 8193):
+        longs = []
+        for sp in ([], [0x0000], [0xd800], [0xdc00], [0xd800, 0xdc00], [0x00e9]):
+            w = {0: 0, 1: 2 if sp and sp[0] in (0, 0xe9) else 3, 2: 6}[len(sp)] if sp else 0
+            n = total - w
+            for where in ((0,) if not sp else (0, n // 2, n)):
+                longs.append(mk([0x61] * where + sp + [0x62] * (n - where)))
+        out.append(("long%d" % total, longs))
     # byte-order-mark look-alikes as FIRST unit, followed by each special unit (a decoder that round-trips through UTF-16 with
     # BOM detection eats or misreads them only on its slow path, i.e. when the string also holds NUL / surrogates)
     bom = []
